@@ -797,6 +797,10 @@ func (e *c18env) one(c *c18case, class string) {
 			if sc := parseScript(c.Script); c.RTL != c18nativeRTL(sc) && sc != language.Old_Italic && sc != language.Runic && sc != language.Tifinagh {
 				// the buffer is reversed before shaping: one class per complex shaper
 				key = "C18:unsafe-cut:" + class + ":non-native-direction"
+				if class != "arabic" {
+					// every Arabic-class string fails in the opposite direction (joining context): no finer class there
+					key += ":" + okind
+				}
 			}
 			r.Violation(key, &cc, fmt.Sprintf("%s %U rtl=%v level=%d feats=%d var=%d cuts %v: whole %s pieces %s", c.File, c.Text, c.RTL, c.Level, c.Feats, c.Var, sub, fmtGlyphs(whole), fmtGlyphs(cat)))
 			return false
